@@ -23,12 +23,40 @@ func runC18(cfg *runCfg) error {
 			rsEnumerate(w, depth, c[0], c[1], c[2], func(sc *rsScenario) { enum = append(enum, sc) })
 		}
 	}
+	// the silent broker has also stopped reading: another writer on the connection (the reader goroutine's PUBACK
+	// for an inbound message) is stuck inside Transport.Write when the response timeout fires
+	var stall, noerr []*rsScenario
+	for i, sc := range rsC18Enum() {
+		if !sc.Timeout {
+			continue
+		}
+		if i%3 == 0 || cfg.tier != "quick" {
+			s2 := *sc
+			s2.StallWriter = true
+			s2.Note += " (broker stopped reading)"
+			stall = append(stall, &s2)
+		}
+		if i%3 == 1 || cfg.tier != "quick" {
+			s3 := *sc
+			s3.NoOnError = true
+			s3.Note += " (no OnError callback installed)"
+			noerr = append(noerr, &s3)
+		}
+	}
+	for _, sc := range rsRandomFamily(cfg.seed+9, n/3, [5]int{1, 3, 3, 2, 1}, true, false) {
+		sc.NoOnError = true
+		noerr = append(noerr, sc)
+	}
+	rsPredOnly["noerr"] = true
+	rsFamPred["noerr"] = "c18_ok_noerr"
 	fams := []rsFamily{
 		{"corpus", rsCorpus()},
 		{"enum", append(enum, rsC18Enum()...)},
 		{"random", rsRandomFamily(cfg.seed, n, [5]int{1, 3, 3, 2, 1}, true, false)},
+		{"stall", stall},
+		{"noerr", noerr},
 	}
-	rule := "the F9 history; random scenarios with ResponseTimeout configured in which acknowledgements (or requests) are silently dropped on any connection, for first transmissions, deferred requests and retransmissions, QoS1, both QoS2 phases, subscribe, unsubscribe, combined with closing faults; judged: never stuck, one RequestTimeoutError through OnError per silent drop, every request acknowledged at the end; non-trivial = distinct scenario in which a silent fault fired"
+	rule := "the F9 history; random scenarios with ResponseTimeout configured in which acknowledgements (or requests) are silently dropped on any connection, for first transmissions, deferred requests and retransmissions, QoS1, both QoS2 phases, subscribe, unsubscribe, combined with closing faults; judged: never stuck, one RequestTimeoutError through OnError per silent drop, every request acknowledged at the end; family stall: the same while the broker has also stopped reading (the reader goroutine's PUBACK for an inbound message is stuck in Transport.Write when the timeout fires); family noerr (predicate only, without the 'reported' clause): the same with no OnError callback installed; non-trivial = distinct scenario in which a silent fault fired"
 	return rsRunProperty(cfg, "C18", "c18_ok'", fams, rule, func(sc *rsScenario, o *rsObs) bool {
 		for _, w := range o.Wire {
 			if strings.HasSuffix(w.Desc, "FSilentReq") || strings.HasSuffix(w.Desc, "FSilentAck") {
